@@ -196,8 +196,13 @@ func expectedPeerForwarding(c *an.Check) {
 	}
 	cfp := an.R("crypto/tls", "Identity", "ConfigForPeer")
 	n, bad := 0, ""
-	for _, name := range []string{"DialSession", "DialSessionViaTransport", "ListenSession", "BuildIncomingTlsConf"} {
-		f := p.Func(q, "", name)
+	for _, name := range []string{"DialSession", "DialSessionViaTransport", "ListenSession", "BuildIncomingTlsConf", "Transport.HandleConn"} {
+		var f *ssa.Function
+		if recv, m, isM := strings.Cut(name, "."); isM {
+			f = p.Func(q, recv, m)
+		} else {
+			f = p.Func(q, "", name)
+		}
 		if f == nil {
 			bad = "unresolved anchor: " + name
 			continue
@@ -209,7 +214,7 @@ func expectedPeerForwarding(c *an.Check) {
 		}
 		found := false
 		for _, g := range an.WithClosures(f) {
-			for _, call := range an.Calls(g, cfp, an.R(q, "", "BuildIncomingTlsConf")) {
+			for _, call := range an.Calls(g, cfp, an.R(q, "", "BuildIncomingTlsConf"), an.R(q, "", "DialSession"), an.R(q, "", "ListenSession"), an.R(q, "", "DialSessionViaTransport")) {
 				found = true
 				n++
 				args := an.CallArgs(call.Common())
@@ -238,5 +243,5 @@ func expectedPeerForwarding(c *an.Check) {
 			bad = name + " never builds a TLS configuration for the expected peer"
 		}
 	}
-	c.Require(bad == "" && n >= 4, "CALLARG", "quic session helpers forward the expected remote peer to the TLS identity check", nil, "", n, "DialSession*/ListenSession/BuildIncomingTlsConf → ConfigForPeer(expected peer)", bad)
+	c.Require(bad == "" && n >= 6, "CALLARG", "quic session helpers forward the expected remote peer to the TLS identity check", nil, "", n, "DialSession*/ListenSession/BuildIncomingTlsConf → ConfigForPeer(expected peer)", bad)
 }
